@@ -4,7 +4,7 @@ from vf import gen, corecheck as cc, framework as fw, model_pubsub
 RULE = ("messaging profile: 2-6 modules with overlapping literal / regular-expression subscriptions and non-recipients, tell / publish / "
         "broadcast from the main script, from driver steps and from every callback kind, interleaved with pause/resume/stop/"
         "deregister/poison pills, auto-free payloads to 0, 1 and many recipients, sends followed at once by quit (final flush); "
-        "plus the hostile burst templates (8190..9000 messages to one mailbox), idle_throttled, paused_recipient_stopped (auto-free mail to a PAUSED module that is then stopped / deregistered / replaced while paused), colliding_topics, and oneshot_resub_at_flush (a one-shot subscription replaced by a persistent one while its message is in flight, handed over by the final flush, topic published again in the next run). Every payload is a unique token, so a delivery "
+        "plus the hostile burst templates (8190..9000 messages to one mailbox), idle_throttled, paused_recipient_stopped (auto-free mail to a PAUSED module that is then stopped / deregistered / replaced while paused), colliding_topics, full_mailbox_broadcast (a broadcast and a publish while one of 6-11 modules with seed-dependent names has more than 8192 messages pending: every other eligible module still gets them), and oneshot_resub_at_flush (a one-shot subscription replaced by a persistent one while its message is in flight, handed over by the final flush, topic published again in the next run). Every payload is a unique token, so a delivery "
         "identifies its send. Oracle: no delivery without an accepted send / to a module not eligible at send time / twice; "
         "sender and topic as supplied; an eligible recipient that stays active, is RUNNING when the loop run ends, is not batching / "
         "low-priority / one-shot and had < 8000 pending must have received it; auto-free released exactly once, not before its last "
@@ -52,6 +52,11 @@ def build(tier, seed):
             c = cc.Case()
             c.sc, c.profile, c.mode, c.seed = sc, "colliding_topics", m, seed * 1000 + k
             cases.append(c)
+    for k in range(6 if tier == "quick" else 120):
+        sc = gen.gen_full_mailbox_broadcast(seed * 1000 + k)
+        c = cc.Case()
+        c.sc, c.profile, c.mode, c.seed = sc, "full_mailbox_broadcast", ("loop" if k % 2 else "dispatch"), seed * 1000 + k
+        cases.append(c)
     return cases
 
 
